@@ -4,13 +4,20 @@
 //! explicit relation. Judged by TLC against the set-level contracts of spec/Rel.tla (Trace_Rel).
 
 use crate::enc::*;
-use crate::sem::load_network;
 use biodivine_hctl_model_checker::evaluation::algorithm::compute_steady_states;
 use biodivine_hctl_model_checker::evaluation::primitives_export::*;
 use biodivine_hctl_model_checker::mc_utils::get_extended_symbolic_graph;
 use biodivine_lib_param_bn::symbolic_async_graph::{GraphColoredVertices, SymbolicAsyncGraph};
 use biodivine_lib_param_bn::BooleanNetwork;
 use serde_json::{json, Value};
+
+fn load_network(model: &str, format: &str) -> Result<BooleanNetwork, String> {
+    match format {
+        "aeon" => BooleanNetwork::try_from(model),
+        "bnet" => BooleanNetwork::try_from_bnet(model),
+        _ => Err(format!("unknown format {format}")),
+    }
+}
 use std::panic::{catch_unwind, AssertUnwindSafe};
 
 fn tuples(v: &Value) -> Vec<Vec<u64>> {
